@@ -16,6 +16,8 @@
   initiate_upgrade_connection.  For those the property is decided by the correspondence check and oracle_C29 only.
 -/
 import H2.Proofs.ApiOk
+import H2.Proofs.ApiWF
+import H2.Props.C17
 
 namespace H2.C29
 open H2 H2.Gen H2.Conn
@@ -96,6 +98,73 @@ theorem C29_premise_after_recv (c : Conn) (data : Bytes) (h : WF c) (hb : HbOk c
     cases r with
     | ok a => exact this.1.1.mof
     | error e => exact this.2.1.1.mof
+
+/-! ### the premise is an invariant of every history of covered calls and `receive_data` -/
+
+theorem inv_of_keeps {α : Type} (f : α → Val) (m : CM α) (c : Conn) (hk : ApiKeeps m c) (h : C17.Inv c) :
+    C17.Inv (match m c with | (r, c') => (c', ({ res := resOf f r } : Obs))).1 := by
+  have := hk c.fb ⟨h.1, rfl⟩
+  unfold wp at this
+  cases hm : m c with
+  | mk r c' =>
+    rw [hm] at this
+    have k : KW c.fb c' := by cases r <;> exact this
+    exact ⟨k.1, by rw [k.2]; exact h.2⟩
+
+/-- **every covered call preserves the invariant** (whether it returns or raises) -/
+theorem C29_covered_call_keeps_invariant (c : Conn) (op : Op) (hcov : covered op = true) (h : C17.Inv c) :
+    C17.Inv (step c op).1 := by
+  cases op with
+  | initiateConnection => cases hcov
+  | initiateUpgrade _ => cases hcov
+  | sendHeaders _ _ _ _ _ _ => cases hcov
+  | pushStream _ _ _ => cases hcov
+  | recv _ => cases hcov
+  | sendData sid d es pad => exact inv_of_keeps _ _ c (keeps_apiSendData sid d es pad c) h
+  | endStream sid => exact inv_of_keeps _ _ c (keeps_apiEndStream sid c) h
+  | incrementWindow i sid => exact inv_of_keeps _ _ c (keeps_apiIncrementWindow i sid c) h
+  | ping d => exact inv_of_keeps _ _ c (keeps_ping d c) h
+  | resetStream sid code => exact inv_of_keeps _ _ c (keeps_apiResetStream sid code c) h
+  | closeConnection code extra last => exact inv_of_keeps _ _ c (keeps_apiCloseConnection code extra last c) h
+  | updateSettings items => exact inv_of_keeps _ _ c (keeps_apiUpdateSettings items c) h
+  | altsvc f o sid => exact inv_of_keeps _ _ c (keeps_apiAltsvc f o sid c) h
+  | prioritize sid w d e => exact inv_of_keeps _ _ c (keeps_apiPrioritize sid w d e c) h
+  | ackData size sid => exact inv_of_keeps _ _ c (keeps_apiAckData size sid c) h
+  | dataToSend n => exact inv_of_keeps _ _ c (keeps_apiDataToSend n c) h
+  | clearOut => exact inv_of_keeps _ _ c (keeps_apiClearOut c) h
+  | query q =>
+    cases q with
+    | localWindow sid => exact inv_of_keeps _ _ c (keeps_apiLocalWindow sid c) h
+    | remoteWindow sid => exact inv_of_keeps _ _ c (keeps_apiRemoteWindow sid c) h
+    | nextStreamId => exact inv_of_keeps _ _ c (keeps_apiNextStreamId c) h
+    | openOut => exact inv_of_keeps _ _ c (keeps_apiOpenOut c) h
+    | openIn => exact inv_of_keeps _ _ c (keeps_apiOpenIn c) h
+    | inboundWindow =>
+      refine inv_of_keeps Val.int (do let c ← getS; pure c.inWM.current_window_size) c ?_ h
+      intro fb0 hk; wps; exact hk
+
+/-- the states reachable from a fresh connection by covered calls and `receive_data` calls (each with whatever
+    well-typed results the HPACK decoder produces for it) -/
+inductive Reachable (cfg : Config) : Conn → Prop
+  | init : Reachable cfg (Conn.init cfg)
+  | call (c : Conn) (op : Op) : Reachable cfg c → covered op = true → Reachable cfg (step c op).1
+  | recv (c : Conn) (d : Bytes) (dec : List DecRes) : Reachable cfg c → C17.DecResOk dec →
+      Reachable cfg (step (C17.feed c [] dec) (.recv d)).1
+
+theorem C29_reachable_invariant (cfg : Config) (c : Conn) (h : Reachable cfg c) : C17.Inv c := by
+  induction h with
+  | init => exact C17.C17_init cfg
+  | call c op _ hcov ih => exact C29_covered_call_keeps_invariant c op hcov ih
+  | recv c d dec _ hd ih => exact (C17.C17_step _ d (C17.C17_feed c [] dec ih hd)).2.2
+
+/-- **C29 and C17 along every such history**: in every reachable state a covered call returns or raises an allowed
+    exception having written nothing, and `receive_data` never ends in a Python-level exception -/
+theorem C29_every_history (cfg : Config) (c : Conn) (h : Reachable cfg c) :
+    (∀ op, covered op = true → StepOk c (step c op)) ∧
+    (∀ d dec, C17.DecResOk dec → ∀ k, (step (C17.feed c [] dec) (.recv d)).2.res ≠ .py k) := by
+  have hi := C29_reachable_invariant cfg c h
+  exact ⟨fun op hcov => C29_step_partial c op hcov hi.1.1.mof,
+         fun d dec hd => (C17.C17_step _ d (C17.C17_feed c [] dec hi hd)).1⟩
 
 /-! ### the lookup clause: closed-and-forgotten → StreamClosedError, never-used higher id → NoSuchStreamError -/
 
